@@ -194,9 +194,11 @@ def _module_name(relpath):
 class Program(object):
     """All service modules of /repo/placement (tests and DDL excluded)."""
 
-    def __init__(self, repo='/repo', overlay=None):
+    def __init__(self, repo='/repo', overlay=None, relocate=True):
         self.repo = repo
         self.overlay = overlay or {}
+        self.relocate = relocate
+        self.relocated = {}        # recorded qbase -> actual qbase
         self.modules = {}
         self.funcs = []            # every Func
         self.by_qname = {}
@@ -270,12 +272,22 @@ class Program(object):
         for m in self.modules.values():
             self._index_defs(m)
         for f in self.funcs:
-            self.by_qbase.setdefault(f.qbase, []).append(f)
             for d in f.decorators:
                 # a decorator spelled through a module-level alias
                 # (_writer = db_api.placement_context_manager.writer) is the
                 # decorator it names
                 d.qname = self.resolve_alias(d.qname)
+        self._build_name_index()
+        if self.relocate:
+            self._relocate()
+
+    def _build_name_index(self):
+        self.by_qbase = {}
+        self.by_qname = {}
+        for f in self.funcs:
+            f.ordinal = 0
+        for f in self.funcs:
+            self.by_qbase.setdefault(f.qbase, []).append(f)
         for f in self.funcs:
             if f.qname in self.by_qname:
                 # same window twice or unversioned redefinition: keep ordinal
@@ -385,6 +397,36 @@ class Program(object):
             walk(fnode.body)
 
         visit_body(m.tree.body, None, None)
+
+    def _relocate(self):
+        """Present moved / renamed functions under their recorded names
+        (psa/anchors.py).  Top-level and class-level functions first, then
+        nested ones (whose names depend on their parent's)."""
+        from psa import anchors
+        table = anchors.load_table()
+        if not table:
+            return
+        for nested in (False, True):
+            missing = [q for q in table if q not in self.by_qbase
+                       and ('>' in q) == nested]
+            if not missing:
+                continue
+            extra = {q: fs for q, fs in self.by_qbase.items()
+                     if q not in table and ('>' in q) == nested}
+            if not extra:
+                continue
+            m = anchors.match(missing, extra, table)
+            for rec, act in m.items():
+                for f in self.by_qbase[act]:
+                    f._qbase = rec.split('@')[0] if False else rec
+                    f.relocated_from = act
+                self.relocated[rec] = act
+            if m:
+                for f in self.funcs:
+                    if f.parent is not None and not getattr(
+                            f, 'relocated_from', None):
+                        f._qbase = None
+                self._build_name_index()
 
     # -- name resolution ---------------------------------------------------
     def dotted(self, m, expr, scope_func=None):
@@ -619,6 +661,9 @@ def src(node):
 # ---------------------------------------------------------------------------
 # Constant evaluation of module-level initialisers
 # ---------------------------------------------------------------------------
+
+_NOFOLD = object()
+
 
 class ConstEval(object):
     """Fold module-level initialisers in a closed subset of Python.
@@ -950,7 +995,66 @@ class ConstEval(object):
         if q == 'str' and len(args) == 1 and isinstance(
                 args[0], (str, int, float)):
             return str(args[0])
+        folded = self._fold_factory(q, args, kwargs, loc)
+        if folded is not _NOFOLD:
+            return folded
         return CallRec(q, args, kwargs, e)
+
+    def _fold_factory(self, q, args, kwargs, loc):
+        """A call of a project function whose whole body is ``return
+        <expression>`` (a constructor helper such as a rule or schema
+        factory) folds to that expression with the parameters bound: still
+        constant folding, no statement of the program is executed."""
+        if not q or '.' not in q or getattr(self, '_fold_depth', 0) > 4:
+            return _NOFOLD
+        head, last = q.rsplit('.', 1)
+        fm = self.prog.modules.get(head)
+        if fm is None or last not in fm.functions:
+            return _NOFOLD
+        fs = fm.functions[last]
+        if len(fs) != 1 or fs[0].decorators:
+            return _NOFOLD
+        fn = fs[0].node
+        body = list(fn.body)
+        if body and isinstance(body[0], ast.Expr) and isinstance(
+                body[0].value, ast.Constant):
+            body = body[1:]
+        if len(body) != 1 or not isinstance(body[0], ast.Return) or \
+                body[0].value is None:
+            return _NOFOLD
+        a = fn.args
+        if a.vararg or a.kwarg or a.posonlyargs:
+            return _NOFOLD
+        names = [x.arg for x in a.args]
+        if len(args) > len(names):
+            return _NOFOLD
+        menv = self.module_env(head)
+        if menv is None:
+            return _NOFOLD
+        env2 = dict(menv)
+        bound = dict(zip(names, args))
+        for k, v in kwargs.items():
+            if k not in names and k not in [x.arg for x in a.kwonlyargs]:
+                return _NOFOLD
+            bound[k] = v
+        defaults = dict(zip(names[len(names) - len(a.defaults):],
+                            a.defaults))
+        for x, d in zip(a.kwonlyargs, a.kw_defaults):
+            if d is not None:
+                defaults[x.arg] = d
+        self._fold_depth = getattr(self, '_fold_depth', 0) + 1
+        try:
+            for nme in names + [x.arg for x in a.kwonlyargs]:
+                if nme not in bound:
+                    if nme not in defaults:
+                        return _NOFOLD
+                    bound[nme] = self._eval(fm, defaults[nme], menv, loc)
+            env2.update(bound)
+            return self._eval(fm, body[0].value, env2, loc)
+        except _Unsupported:
+            return _NOFOLD
+        finally:
+            self._fold_depth -= 1
 
     def _callee_name(self, m, f, env, loc):
         v = None
